@@ -23,10 +23,6 @@ Section WithEnv.
      and then applied to the stream: the plan does not depend on the stream's state. *)
   Definition wplan := list (N * bytes).
 
-  Definition exec_write (os : ostream) (w : N * bytes) : ostream :=
-    write (adjust_stream_size os (fst w)) (snd w).
-  Definition exec_plan (os : ostream) (p : wplan) : ostream := fold_left exec_write p os.
-
   (* section_impl::save *)
   Definition section_plan (enc : endian) (st : option istream) (t : xlat) (s : section) (hpos : N)
     : res (option istream * section * wplan) :=
